@@ -1,11 +1,49 @@
 /- Dispatch table of the driver: one handler per property. -/
+import SoundeventModel.Ops.C01
+import SoundeventModel.Ops.C02
+import SoundeventModel.Ops.C03
+import SoundeventModel.Ops.C04
+import SoundeventModel.Ops.C05
+import SoundeventModel.Ops.C06
+import SoundeventModel.Ops.C07
+import SoundeventModel.Ops.C08
+import SoundeventModel.Ops.C09
+import SoundeventModel.Ops.C10
+import SoundeventModel.Ops.C11
 import SoundeventModel.Ops.C12
+import SoundeventModel.Ops.C13
+import SoundeventModel.Ops.C14
+import SoundeventModel.Ops.C15
+import SoundeventModel.Ops.C16
+import SoundeventModel.Ops.C17
+import SoundeventModel.Ops.C18
+import SoundeventModel.Ops.C19
+import SoundeventModel.Ops.C20
 namespace SE.Ops
 open Lean
 
 def dispatch (prop op : String) (args : Json) : Except String Json :=
   match prop with
+  | "C01" => C01.handle op args
+  | "C02" => C02.handle op args
+  | "C03" => C03.handle op args
+  | "C04" => C04.handle op args
+  | "C05" => C05.handle op args
+  | "C06" => C06.handle op args
+  | "C07" => C07.handle op args
+  | "C08" => C08.handle op args
+  | "C09" => C09.handle op args
+  | "C10" => C10.handle op args
+  | "C11" => C11.handle op args
   | "C12" => C12.handle op args
+  | "C13" => C13.handle op args
+  | "C14" => C14.handle op args
+  | "C15" => C15.handle op args
+  | "C16" => C16.handle op args
+  | "C17" => C17.handle op args
+  | "C18" => C18.handle op args
+  | "C19" => C19.handle op args
+  | "C20" => C20.handle op args
   | _ => .error s!"unknown property {prop}"
 
 end SE.Ops
